@@ -513,3 +513,111 @@ Lemma limits :
   /\ enc_h5 h5_today [("a"%string, TList [TInt 1; TFloat 4612811918334230528; TBool true])]
      = Ok [(["a"%string], HArr [3%nat] KFloat [4607182418800017408; 4612811918334230528; 4607182418800017408])].
 Proof. vm_compute. repeat split. Qed.
+
+(* ====================================================================== *)
+(* 4. "/"-joined dataset names are distinct when keys contain no "/"       *)
+(* ====================================================================== *)
+Local Open Scope string_scope.
+
+Lemma has_slash_app a b : has_slash (a ++ "/" ++ b) = true.
+Proof.
+  change ("/" ++ b) with (String "/" b).
+  induction a as [|c a IH]; cbn [append has_slash]; [rewrite Ascii.eqb_refl; reflexivity|].
+  rewrite IH. apply orb_true_r.
+Qed.
+
+Lemma split_first a : forall b x y, has_slash a = false -> has_slash b = false ->
+  a ++ "/" ++ x = b ++ "/" ++ y -> a = b /\ x = y.
+Proof.
+  induction a as [|c a IH]; intros b x y Ha Hb E.
+  - destruct b as [|c' b]; cbn [append] in E.
+    + inversion E. split; reflexivity.
+    + inversion E; subst. cbn [has_slash] in Hb. rewrite Ascii.eqb_refl in Hb. discriminate.
+  - cbn [has_slash] in Ha. apply orb_false_iff in Ha. destruct Ha as [Hc Ha].
+    destruct b as [|c' b]; cbn [append] in E.
+    + inversion E; subst. rewrite Ascii.eqb_refl in Hc. discriminate.
+    + inversion E; subst. cbn [has_slash] in Hb. apply orb_false_iff in Hb. destruct Hb as [_ Hb].
+      destruct (IH b x y Ha Hb H1) as [E1 E2]. subst. split; reflexivity.
+Qed.
+
+Lemma key_ok_parts k : key_ok k = true -> k <> "" /\ has_slash k = false.
+Proof.
+  unfold key_ok. intros H. apply andb_true_iff in H. destruct H as [H1 H2].
+  apply negb_true_iff in H1, H2. split; [|exact H2]. apply String.eqb_neq. exact H1.
+Qed.
+
+Lemma join_cons2 a b r : join (a :: b :: r) = a ++ "/" ++ join (b :: r).
+Proof. reflexivity. Qed.
+
+Lemma app_slash_ne_empty a x : a ++ "/" ++ x <> "".
+Proof. destruct a; cbn; discriminate. Qed.
+
+Lemma join_inj : forall p q, forallb key_ok p = true -> forallb key_ok q = true -> join p = join q -> p = q.
+Proof.
+  induction p as [|a p IH]; intros q Hp Hq E.
+  - destruct q as [|b [|b2 q]]; [reflexivity| |].
+    + cbn in E, Hq. rewrite andb_true_r in Hq. destruct (key_ok_parts b Hq) as [Hne _]. subst. contradiction.
+    + rewrite join_cons2 in E. cbn [join] in E. symmetry in E. apply app_slash_ne_empty in E. contradiction.
+  - cbn [forallb] in Hp. apply andb_true_iff in Hp. destruct Hp as [Ha Hp].
+    destruct (key_ok_parts a Ha) as [Hane Has].
+    destruct p as [|a2 p].
+    + destruct q as [|b [|b2 q]].
+      * cbn in E. contradiction.
+      * cbn in E. subst. reflexivity.
+      * rewrite join_cons2 in E. change (join [a]) with a in E. subst a. rewrite has_slash_app in Has. discriminate.
+    + destruct q as [|b [|b2 q]].
+      * rewrite join_cons2 in E. change (join []) with EmptyString in E. apply app_slash_ne_empty in E. contradiction.
+      * cbn in Hq. rewrite andb_true_r in Hq. destruct (key_ok_parts b Hq) as [_ Hbs].
+        rewrite join_cons2 in E. change (join [b]) with b in E. subst b. rewrite has_slash_app in Hbs. discriminate.
+      * cbn [forallb] in Hq. apply andb_true_iff in Hq. destruct Hq as [Hb Hq].
+        destruct (key_ok_parts b Hb) as [_ Hbs].
+        rewrite !join_cons2 in E. destruct (split_first a b _ _ Has Hbs E) as [E1 E2]. subst b.
+        f_equal. apply IH; assumption.
+Qed.
+
+Local Close Scope string_scope.
+
+Lemma leaves_keys_ok : forall t path q lf, forallb key_ok path = true -> dict_ok t = true ->
+  In (q, lf) (leaves path t) -> forallb key_ok q = true.
+Proof.
+  induction t as [| b | z | b | s | k z | s k d | f r | xs IH | xs IH | d IH | r] using tree_ind';
+    intros path q lf Hp Hok Hin; cbn [leaves] in Hin;
+    try (destruct Hin as [E|[]]; inversion E; subst; exact Hp).
+  apply in_concat in Hin. destruct Hin as [l [Hl Hq]]. apply in_map_iff in Hl.
+  destruct Hl as [kv [E Hkv]]. subst l. rewrite Forall_forall in IH.
+  cbn [dict_ok] in Hok. apply andb_true_iff in Hok. destruct Hok as [Hok Hd].
+  apply andb_true_iff in Hok. destruct Hok as [Hok _]. apply andb_true_iff in Hok. destruct Hok as [_ Hk].
+  apply (IH kv Hkv (path ++ [fst kv]) q lf); [| |exact Hq].
+  - rewrite forallb_app, Hp. cbn [forallb andb]. rewrite andb_true_r.
+    rewrite forallb_forall in Hk. apply Hk. apply in_map. exact Hkv.
+  - rewrite forallb_forall in Hd. exact (Hd kv Hkv).
+Qed.
+
+Lemma NoDup_map_inj_on {A B} (f : A -> B) (l : list A) :
+  NoDup l -> (forall x y, In x l -> In y l -> f x = f y -> x = y) -> NoDup (map f l).
+Proof.
+  induction 1 as [|x l Hx _ IH]; intros Hinj; cbn [map]; constructor.
+  - intros Hin. apply in_map_iff in Hin. destruct Hin as [y [E Hy]].
+    assert (y = x) by (apply Hinj; [right; exact Hy|left; reflexivity|exact E]). subst. contradiction.
+  - apply IH. intros a b Ha Hb. apply Hinj; right; assumption.
+Qed.
+
+Theorem h5_names_distinct sk (Hok : h5_ok sk = true) d f :
+  top_ok d = true -> no_marker (TDict d) = true -> enc_h5 sk d = Ok f ->
+  NoDup (map (fun e => join (fst e)) f).
+Proof.
+  intros Htop Hnm He. destruct (h5_roundtrip sk Hok d f Htop Hnm He) as [Hf Hnd].
+  rewrite <- (map_map fst join). apply NoDup_map_inj_on; [exact Hnd|].
+  assert (Hp : map fst f = map fst (top_leaves d)).
+  { clear -Hf. induction Hf as [|e lf f' ls [E _] _ IH]; cbn [map]; [reflexivity|]. rewrite E, IH. reflexivity. }
+  assert (K : forall q, In q (map fst f) -> forallb key_ok q = true).
+  { intros q Hq. rewrite Hp in Hq. apply in_map_iff in Hq. destruct Hq as [[q' lf] [E Hin]]. cbn in E. subst q'.
+    unfold top_leaves in Hin. apply in_concat in Hin. destruct Hin as [l [Hl Hq]]. apply in_map_iff in Hl.
+    destruct Hl as [kv [E Hkv]]. subst l.
+    unfold top_ok in Htop. apply andb_true_iff in Htop. destruct Htop as [Htop Hd].
+    apply andb_true_iff in Htop. destruct Htop as [Hk _].
+    apply (leaves_keys_ok (snd kv) [fst kv] q lf); [| |exact Hq].
+    - cbn [forallb]. rewrite andb_true_r. rewrite forallb_forall in Hk. apply Hk. apply in_map. exact Hkv.
+    - rewrite forallb_forall in Hd. exact (Hd kv Hkv). }
+  intros x y Hx Hy E. apply join_inj; auto.
+Qed.
